@@ -370,13 +370,17 @@ func execMsgLimit(a []string) string {
 }
 
 func init() {
-	executors["msg.limit"] = execMsgLimit
-	executors["msg.read"] = execMsgRead
-	executors["msg.reread"] = execMsgReread
-	executors["msg.write"] = execMsgWrite
-	executors["msg.wfail"] = execMsgWriteAfterFailure
-	executors["msg.pieces"] = execMsgPieces
-	executors["msg.conn"] = execMsgConn
+	// every operation runs under a time limit: a reader or a writer that spins answers "hang" (the goroutine is abandoned)
+	limited := func(f func([]string) string) func([]string) string {
+		return func(a []string) string { return withTimeout(30*time.Second, func() string { return f(a) }) }
+	}
+	executors["msg.limit"] = limited(execMsgLimit)
+	executors["msg.read"] = limited(execMsgRead)
+	executors["msg.reread"] = limited(execMsgReread)
+	executors["msg.write"] = limited(execMsgWrite)
+	executors["msg.wfail"] = limited(execMsgWriteAfterFailure)
+	executors["msg.pieces"] = limited(execMsgPieces)
+	executors["msg.conn"] = limited(execMsgConn)
 	runners["C01"] = runC01
 }
 
